@@ -637,6 +637,13 @@ pub fn observe_opts<D: ReadDoc>(d: &D, heads: Option<&[ChangeHash]>, deep_checks
     }
 }
 
+/// observe the sub-tree rooted at an arbitrary object (e.g. one that is no longer reachable from ROOT)
+pub fn observe_from<D: ReadDoc>(d: &D, heads: Option<&[ChangeHash]>, id: &ObjId, typ: ObjType) -> Obs {
+    let mut w = Walker { d, h: heads, errors: vec![], objects: vec![], stats: ObsStats::default(), deep_checks: false, depth: 0 };
+    let snap = w.object(id, typ);
+    Obs { snap, errors: w.errors, objects: w.objects, stats: w.stats }
+}
+
 pub fn fingerprint(j: &J) -> u64 {
     crate::fw::fnv(serde_json::to_string(j).unwrap_or_default().as_bytes())
 }
